@@ -157,6 +157,8 @@ def cell_sample(spec):
     extra = [('$TIMESTEP', '0.1')] + [('$P%dV' % (k + 3), str(500 + 25 * k)) for k in range(nch)]
     if spec.get('voltage_shift'):
         extra = [('$TIMESTEP', '0.1')] + [('$P%dV' % (k + 3), str(500 + 25 * k + spec['voltage_shift'])) for k in range(nch)]
+    if spec.get('voltages'):                 # detector voltage per fluorescence parameter, in file order
+        extra = [('$TIMESTEP', '0.1')] + [('$P%dV' % (k + 3), str(v)) for k, v in enumerate(spec['voltages'])]
     if spec.get('container', 'int') == 'int':
         events = []
         for t, r in enumerate(rows):
@@ -172,6 +174,8 @@ def cell_sample(spec):
             vals = [min(float(np.float32(v)), 262143.0) for v in r]
             if spec.get('negatives') and t % 9 == 0:
                 vals[2] = -abs(vals[2]) * 0.01 - 1.0
+            if spec.get('overrange') and t % 11 == 5:
+                vals[t % 2] = 300000.0 + t          # a scatter value beyond the declared range (floating-point files are not clipped)
             events.append([fcsgen.float_bits(v, dtc) for v in vals] + [fcsgen.float_bits(float(t), dtc)])
         lay = dict(datatype=dtc, bits=[32 if dtc == 'F' else 64] * D, ranges=[262144] * D, names=names, pne=['0,0'] * D, events=events,
                    byteord='1,2,3,4', extra=extra)
